@@ -15,6 +15,7 @@ TRUSTED = [
     'Props/C17.v: fake_path specification; the PO-spelling / MO-layout corollaries rest on the C10 / C08 theorems where those are available',
     'GNU gettext msgcat / msgfmt (when installed) as independent re-spellers / compilers; the harness\'s own PO re-speller and (after the C08 merge) MO serialiser',
     'dpkg-deb for building test packages; os.walk order, temporary-directory handling and subprocesses are explored, not modelled',
+    'tools/gen/gen_cli_src.py: fail-closed python-ast -> Gallina translator of lib/cli.py (Checker.tag, check_regular_file, copy_options, check_deb, check_file, check_file_s, check_all, parse_jobs, the -j normalisation of main) and its vocabulary Model/CliPy.v (io = lines written + Ret/Raise, posixpath.join, options record); the real checker, subprocesses, TemporaryDirectory, os.walk, islink/isfile, the executor, tags.get_tag and Tag.format are oracle arguments',
 ]
 ASSUME = ['"diagnostics about the charset itself" = non-portable-encoding, unknown-encoding, broken-encoding, non-ascii-compatible-encoding, '
           'unrepresentable-characters, invalid-content-type, boilerplate-in-content-type (filtered before comparing transcoded pairs)',
